@@ -9,6 +9,7 @@ import (
 	"github.com/tencent/goom/erro"
 	"github.com/tencent/goom/internal/hack"
 	"github.com/tencent/goom/internal/iface"
+	"github.com/tencent/goom/internal/simhook"
 )
 
 // Interface 构造接口代理，自动生成接口实现的桩指令织入到内存中
@@ -57,6 +58,7 @@ func Interface(ifaceVar interface{}, ctx *iface.IContext, method string, imp int
 		ctx.Cache(ifaceCacheKey, fakeIface)
 		applyIfaceTo(fakeIface, gen)
 	}
+	simhook.Yield(simhook.SiteIfaceApplied, 0)
 	return nil
 }
 
